@@ -352,7 +352,12 @@ func (vc *FuncVC) translateAxioms() {
 				h := ds.heaps[hn]
 				bs = append(bs, fmt.Sprintf("(%s %s)", h.S, h.Sort))
 			}
-			text = fmt.Sprintf("(forall (%s) %s)", strings.Join(bs, " "), text)
+			if strings.HasPrefix(text, "(forall (") {
+				// one flat quantifier, so that the axiom's patterns also bind the heaps
+				text = "(forall (" + strings.Join(bs, " ") + " " + text[len("(forall ("):]
+			} else {
+				text = fmt.Sprintf("(forall (%s) %s)", strings.Join(bs, " "), text)
+			}
 		}
 		vc.axioms = append(vc.axioms, axiomT{name: ad.Name, term: text, syms: headSymbols(text)})
 	}
